@@ -30,6 +30,24 @@ struct Out {
 	cases: u64,
 }
 
+/// An input that does not know how much is left (what a stream reader is in a std build; written
+/// here so that it exists in every configuration).
+struct NoLen<'a>(&'a [u8]);
+impl<'a> parity_scale_codec::Input for NoLen<'a> {
+	fn remaining_len(&mut self) -> Result<Option<usize>, parity_scale_codec::Error> {
+		Ok(None)
+	}
+	fn read(&mut self, into: &mut [u8]) -> Result<(), parity_scale_codec::Error> {
+		if into.len() > self.0.len() {
+			return Err("eof".into());
+		}
+		let (a, b) = self.0.split_at(into.len());
+		into.copy_from_slice(a);
+		self.0 = b;
+		Ok(())
+	}
+}
+
 fn run_type<T: Modelled + Encode + Decode>(name: &str, seed: u64, nvals: u64, out: &mut Out) {
 	let ty = T::ty();
 	let mut rng = Rng::new(seed ^ hash64(&name));
@@ -78,8 +96,22 @@ fn run_type<T: Modelled + Encode + Decode>(name: &str, seed: u64, nvals: u64, ou
 				Err(_) => hash64(&0u8),
 			};
 			let all = T::decode_all(&mut &b[..]).is_ok();
-			let lim = T::decode_with_depth_limit(3, &mut &b[..]).is_ok();
-			let _ = writeln!(out.log, "{name}\tdec\t{i}.{j}\t{d:016x}{}{}", all as u8, lim as u8);
+			// depth-limited decoding at every small limit (which paths count a nesting level must not
+			// depend on the configuration), skipping, and an input that cannot tell its length
+			let mut lim = 0u32;
+			for l in 0..5u32 {
+				lim |= (T::decode_with_depth_limit(l, &mut &b[..]).is_ok() as u32) << l;
+				lim |= (T::decode_all_with_depth_limit(l, &mut &b[..]).is_ok() as u32) << (8 + l);
+			}
+			let mut s2 = &b[..];
+			let sk = T::skip(&mut s2).is_ok();
+			let sk_used = if sk { b.len() - s2.len() } else { 0 };
+			let mut nl = NoLen(&b[..]);
+			let unk = match T::decode(&mut nl) {
+				Ok(x) => hash64(&(1u8, x.to_val(), b.len() - nl.0.len())),
+				Err(_) => hash64(&0u8),
+			};
+			let _ = writeln!(out.log, "{name}\tdec\t{i}.{j}\t{d:016x}{}{lim:04x}{}{sk_used:x}.{:04x}", all as u8, sk as u8, unk & 0xffff);
 			out.cases += 1;
 		}
 		prev = spec;
